@@ -2,8 +2,8 @@
 # usage: import_seeded.sh <ID> <n> <crate test spec...>   — verifies a sub-agent's seeded change in ITS scratch worktree and stores it
 set -u
 ID=$1; N=$2; shift 2
-WT=/tmp/wt/$ID; OUT=/tmp/wt/$ID-out; DST=/verif/seeded/$ID-$N
-export CARGO_TARGET_DIR=/tmp/wt/$ID-target CARGO_NET_OFFLINE=true
+WT=/tmp/wt/${TAG:-$ID}; OUT=/tmp/wt/${TAG:-$ID}-out; DST=/verif/seeded/$ID-$N
+export CARGO_TARGET_DIR=/tmp/wt/${TAG:-$ID}-target CARGO_NET_OFFLINE=true
 mkdir -p $DST
 cd $WT || exit 2
 git checkout -q -- . ; git apply $OUT/patch.diff || { echo "patch does not apply"; exit 2; }
